@@ -327,7 +327,7 @@ def r5(ctx: Ctx) -> None:
     for p in normal_paths(ctx.paths(gs.qualname)):
         for l in [x for x in p.walk_events(True) if x.kind == "loop"]:
             for bp in l.paths:
-                made = [e for e in calls(bp, into_loops=False) if e.site.how == "ctor" and e.name == "event_class"]
+                made = [e for e in calls(bp, into_loops=False) if e.site.how == "ctor" and "EventABC" in e.site.recv]
                 if not made:
                     continue
                 n += 1
